@@ -208,22 +208,39 @@ def r1(ctx):
 
     # -- dispatch chain and hook-name literals
     hook_names: Set[str] = set()
+    # callee name -> position of the hook-name argument (after cls); forwarders (AddonManager methods that pass
+    # their own parameter on as the hook name) are discovered and treated as dispatchers too
     dispatchers = {"_call_all_addon_hooks": 0, "_call_module_hooks": 1, "_try_call_hook": 1}
-    chain_fns = {cah.qual, cmh.qual, tch.qual}
-    for dname, argi in dispatchers.items():
+    work = list(dispatchers)
+    while work:
+        dname = work.pop()
+        argi = dispatchers[dname]
+        dfn = am.methods.get(dname)
+        dparams = [a.arg for a in dfn.node.args.args][1:] if dfn is not None else []
         for f, c in call_index(repo).get(dname, []):
             inside = f.cls is not None and f.cls == am
             ctx.ob(R, f"{f.qual}: {dname} called from inside AddonManager", inside, ctx.w(f, c),
                    "hook dispatch primitive used outside AddonManager")
             if dname == "_try_call_hook":
                 ctx.ob(R, f"{f.qual}: _try_call_hook called only by _call_module_hooks", f.qual == cmh.qual, ctx.w(f, c))
-            if len(c.args) > argi:
+            a = None
+            if len(c.args) > argi and not any(isinstance(x, ast.Starred) for x in c.args[:argi + 1]):
                 a = c.args[argi]
-                if isinstance(a, ast.Constant) and isinstance(a.value, str):
-                    hook_names.add(a.value)
-                elif not (isinstance(a, ast.Name) and f.qual in chain_fns):
-                    raise AnalysisError(f"{R}: hook name {src(a)} in {f.qual} is neither a literal nor the "
-                                        f"dispatch chain's own parameter")
+            elif argi < len(dparams):
+                a = next((k.value for k in c.keywords if k.arg == dparams[argi]), None)
+            if a is None:
+                raise AnalysisError(f"{R}: cannot locate the hook-name argument of {norm(c)} in {f.qual}")
+            if isinstance(a, ast.Constant) and isinstance(a.value, str):
+                hook_names.add(a.value)
+                continue
+            fparams = [x.arg for x in f.node.args.args][1:] if inside else []
+            if isinstance(a, ast.Name) and a.id in fparams and enclosing_fn(c) is f.node:
+                if f.name not in dispatchers:
+                    dispatchers[f.name] = fparams.index(a.id)
+                    work.append(f.name)
+                continue
+            raise AnalysisError(f"{R}: hook name {src(a)} in {f.qual} is neither a literal nor a parameter "
+                                f"forwarded by an AddonManager method")
     ctx.floor(R, "hook names", len(hook_names), 14)
     ctx.ob(R, "_call_all_addon_hooks dispatches through cls._call_module_hooks",
            any(ap(c.func) == "cls._call_module_hooks" for c in calls(cah.node)), cah.where)
@@ -233,9 +250,59 @@ def r1(ctx):
     entries = [f for n, f in am.methods.items() if n.startswith("handle_")]
     ctx.floor(R, "handle_* entry points", len(entries), 13)
     for f in entries:
-        cs = [c for c in find_calls(f.node, "_call_all_addon_hooks") if ap(c.func) == "cls._call_all_addon_hooks"]
+        reach = class_methods_reachable(repo, f, depth=3)
+        cs = [c for g in reach for c in find_calls(g.node, "_call_all_addon_hooks") if ap(c.func) == "cls._call_all_addon_hooks"]
         ctx.ob(R, f"{f.qual} dispatches via cls._call_all_addon_hooks", len(cs) >= 1, f.where,
                "entry point does not go through the guarded dispatch chain")
+
+    # -- bookkeeping that runs unguarded on the packet path (reload checks etc. reachable from the entry points)
+    #    must not fail on a missing key: an exception there skips every hook, the logger and the forward
+    dict_attrs = set()
+    for st in am.node.body:
+        tgt = st.targets[0] if isinstance(st, ast.Assign) and len(st.targets) == 1 else \
+            st.target if isinstance(st, ast.AnnAssign) else None
+        if not isinstance(tgt, ast.Name):
+            continue
+        ann = src(st.annotation) if isinstance(st, ast.AnnAssign) else ""
+        val = st.value
+        if ann.split("[")[0].split(".")[-1] in ("Dict", "dict", "DefaultDict", "defaultdict", "MutableMapping") or \
+                isinstance(val, ast.Dict) or (isinstance(val, ast.Call) and (ap(val.func) or "").split(".")[-1] in ("dict", "defaultdict")):
+            dict_attrs.add(tgt.id)
+    pre = []
+    for f in entries:
+        for g in class_methods_reachable(repo, f, depth=3):
+            if g not in pre and g.cls is not None and g.cls == am:
+                pre.append(g)
+
+    def is_table(e):
+        p_ = ap(e) or ""
+        return p_.split(".")[0] in ("cls", "self", "AddonManager") and p_.count(".") == 1 and p_.split(".")[1] in dict_attrs
+
+    def has_membership(node, table, key):
+        for e, pol in facts(node):
+            if isinstance(e, ast.Compare) and len(e.ops) == 1 and ap(e.comparators[0]) == ap(table) and norm(e.left) == norm(key):
+                if (isinstance(e.ops[0], ast.In) and pol) or (isinstance(e.ops[0], ast.NotIn) and not pol):
+                    return True
+        return False
+    n_partial = 0
+    for g in pre:
+        for x in walk(g.node, into_defs=True):
+            table = key = None
+            if isinstance(x, ast.Call) and isinstance(x.func, ast.Attribute) and x.func.attr == "pop" and is_table(x.func.value) \
+                    and len(x.args) == 1 and not x.keywords:
+                table, key = x.func.value, x.args[0]
+            elif isinstance(x, ast.Delete):
+                for t_ in x.targets:
+                    if isinstance(t_, ast.Subscript) and is_table(t_.value):
+                        table, key = t_.value, t_.slice
+            if table is None:
+                continue
+            n_partial += 1
+            ctx.ob(R, f"{g.qual}: `{norm(x)}` cannot fail on a missing key", has_membership(x, table, key), ctx.w(g, x),
+                   "KeyError here escapes the handle_* entry point (it runs outside _try_call_hook): no hook runs, the "
+                   "message is neither logged nor forwarded; give pop() a default or test membership first")
+    ctx.ob(R, "pre-dispatch bookkeeping of the entry points checked for partial dict operations", True, ADDONS,
+           f"{len(pre)} functions, {len(dict_attrs)} dict tables, {n_partial} pop/del sites without default")
 
     # -- no other place obtains or calls a hook
     n_sites = 0
@@ -318,8 +385,132 @@ def _propagate_taint(root_stmts, tainted: Set[str]) -> Set[str]:
     return tainted
 
 
+_ROLE_ATTRS = {"handler", "predicate"}   # record fields of a subscriber that hold subscriber-supplied callables
+
+
+def _is_sub_call(c, tainted) -> bool:
+    f = c.func
+    if isinstance(f, ast.Name):
+        return f.id in tainted
+    # record style (NamedTuple / object): sub.handler(...), sub.predicate(...)
+    return isinstance(f, ast.Attribute) and isinstance(f.value, ast.Name) and f.value.id in tainted and f.attr in _ROLE_ATTRS
+
+
 def _sub_calls(stmts, tainted):
-    return [c for st in stmts for c in calls(st, into_defs=True) if isinstance(c.func, ast.Name) and c.func.id in tainted]
+    return [c for st in stmts for c in calls(st, into_defs=True) if _is_sub_call(c, tainted)]
+
+
+def _subscriber_loops(fi: FuncInfo) -> List[ast.For]:
+    """for-loops of fi over self.subscribers, a copy of it, or a local alias / snapshot of it."""
+    from .common import origin
+    out = []
+    for n in walk(fi.node, into_defs=False):
+        if not isinstance(n, (ast.For, ast.AsyncFor)):
+            continue
+        base = n.iter
+        for _ in range(6):
+            if isinstance(base, ast.Call) and base.args and not isinstance(base.func, ast.Attribute):
+                base = base.args[0]              # list(x), reversed(x), tuple(x)
+            elif isinstance(base, ast.Call) and isinstance(base.func, ast.Attribute) and base.func.attr == "copy":
+                base = base.func.value           # x.copy()
+            elif isinstance(base, ast.Subscript):
+                base = base.value                # x[:]
+            elif isinstance(base, ast.Name):
+                o = origin(fi.node, base)
+                if o is base:
+                    break
+                base = o                         # subs = self.subscribers[:]
+            else:
+                break
+        if (ap(base) or "").endswith(".subscribers"):
+            out.append(n)
+    return out
+
+
+def _record_layout(repo, notify_fi: FuncInfo) -> List[str]:
+    """Field order of a subscriber record as built by Event.subscribe (names of the parameters stored)."""
+    sub = repo.lookup_method(notify_fi.cls, "subscribe") if notify_fi.cls is not None else None
+    if sub is None:
+        return []
+    params = {a.arg for a in sub.node.args.args + sub.node.args.kwonlyargs}
+    if sub.node.args.vararg:
+        params.add(sub.node.args.vararg.arg)
+    if sub.node.args.kwarg:
+        params.add(sub.node.args.kwarg.arg)
+    best = []
+    for x in walk(sub.node):
+        elts = None
+        if isinstance(x, ast.Tuple) and isinstance(x.ctx, ast.Load):
+            elts = x.elts
+        elif isinstance(x, ast.Call) and not x.keywords and len(x.args) >= 3:
+            elts = x.args
+        if elts and all(isinstance(e, ast.Name) and e.id in params for e in elts) and len(elts) > len(best):
+            best = [e.id for e in elts]
+    return best
+
+
+def _one_shot_obligation(ctx, R, repo, nf, fi, cfg, loop, head, sync, deferred, tainted):
+    """A one-shot subscriber is unsubscribed whether or not its handler succeeds: an unsubscribe guarded by
+    exactly `one_shot` either dominates every invocation of the handler role, or lies on every way (exceptional
+    ones included) from the invocation back to the loop head."""
+    layout = _record_layout(repo, nf)
+    root = loop if loop is not None else fi.node
+    body = loop.body if loop is not None else fi.node.body
+    # the local that carries the record's one_shot field / the handler field
+    os_names, handler_names_ = {"one_shot"}, set()
+    for st in body:
+        for s_ in stores(st, into_defs=False):
+            tgt = parent(s_.target)
+            if isinstance(tgt, ast.Tuple) and len(tgt.elts) == len(layout):
+                i = next((i for i, e in enumerate(tgt.elts) if e is s_.target), None)
+                if i is not None and layout[i] == "one_shot":
+                    os_names.add(s_.path)
+                if i is not None and layout[i] == "handler":
+                    handler_names_.add(s_.path)
+    if loop is not None and isinstance(loop.target, ast.Tuple) and len(loop.target.elts) == len(layout):
+        for i, e in enumerate(loop.target.elts):
+            if layout[i] == "one_shot" and ap(e):
+                os_names.add(ap(e))
+            if layout[i] == "handler" and ap(e):
+                handler_names_.add(ap(e))
+
+    def is_os(e):
+        p = ap(e) or ""
+        return p in os_names or p.endswith(".one_shot")
+
+    def handler_role(c):
+        f = c.func
+        if isinstance(f, ast.Attribute):
+            return f.attr == "handler"
+        return not handler_names_ and f.id == "handler" or f.id in handler_names_
+    invocations = [c for c in sync if handler_role(c)]
+    tasks = [c for st in body for c in calls(st) if call_attr(c) == "create_logged_task"]
+    if not any(is_os(x) for st in body for x in ast.walk(st)):
+        return    # this Event implementation has no one-shot subscriptions
+    # unsubscribe statements guarded by exactly `one_shot`
+    gates = []
+    for c in [c for st in body for c in calls(st) if call_attr(c) == "unsubscribe" and enclosing_fn(c) is fi.node]:
+        fs = facts(c, root)
+        if fs and all(is_os(e) and pol for e, pol in fs):
+            for a in ancestors(c):
+                if isinstance(a, ast.If) and any(is_os(e) and pol for e, pol in atoms(a.test, True)):
+                    gates.append(a)
+                    break
+    gate_nodes = {n for n in cfg.nodes if any(n.ast is g for g in gates)}
+    start = [head] if head is not None else [cfg.entry]
+
+    def back(n):
+        return n is head or (head is None and (n is cfg.exit or n is cfg.raise_exit))
+    for c in invocations + tasks:
+        cn = set(cfg.stmt_nodes_containing(c))
+        before = cfg_search(cfg, start, target=lambda n: n in cn, avoid=lambda n: n in gate_nodes, follow_exc=lambda n: False)
+        after = cfg_search(cfg, list(cn), target=back, avoid=lambda n: n in gate_nodes, follow_exc=lambda n: n in cn or
+                           any(isinstance(x, ast.Raise) for x in ([cfg_node_expr(cfg, n)] if cfg_node_expr(cfg, n) is not None else [])))
+        ok = bool(gate_nodes) and (before is None or after is None)
+        ctx.ob(R, f"{fi.qual}: one-shot subscriber is unsubscribed whether or not {norm(c.func)}(...) succeeds", ok,
+               ctx.w(fi, c), "the one-shot removal depends on the handler returning (or on another condition): a one-shot "
+               "handler that raises stays subscribed and keeps taking later messages",
+               cfg.describe_path(after) if (not ok and after) else None)
 
 
 def r2(ctx):
@@ -330,7 +521,7 @@ def r2(ctx):
                 "function's raise exit nor its normal exit without returning to the loop head); async handlers "
                 "run in create_logged_task")
     nf = repo.fn("Event.notify")
-    loops = [l for _, l in loops_over([nf], ".subscribers")]
+    loops = _subscriber_loops(nf)
     ctx.floor(R, "subscriber loops in Event.notify", len(loops), 1)
     for loop in loops:
         tainted = _propagate_taint(loop.body, {n.id for n in ast.walk(loop.target) if isinstance(n, ast.Name)})
@@ -362,7 +553,7 @@ def r2(ctx):
         for d in walk(fi.node, into_defs=True):
             if isinstance(d, FUNC_TYPES) and d is not fi.node:
                 for c in calls(d, into_defs=True):
-                    if isinstance(c.func, ast.Name) and c.func.id in tainted and not any(c is x for x in sub_calls):
+                    if _is_sub_call(c, tainted) and not any(c is x for x in sub_calls):
                         sub_calls.append(c)
                         deferred.append(c)
         ctx.floor(R, "subscriber callable invocations", len(sub_calls), 2)
@@ -452,6 +643,7 @@ def r2(ctx):
             ctx.ob(R, f"{fi.qual}: {norm(c)} inside a swallowing catch-all try within the loop",
                    _swallowing(c, loop if in_loop else fi.node), ctx.w(fi, c),
                    "subscriber callable not isolated by try/except inside the loop")
+        _one_shot_obligation(ctx, R, repo, nf, fi, cfg, loop if in_loop else None, head, sync, deferred, tainted)
         for c in deferred:
             d = enclosing_fn(c)
             name = getattr(d, "name", None)
@@ -499,6 +691,17 @@ def _finalize_stmt(repo, f: FuncInfo, st, recv: str) -> bool:
     return False
 
 
+def _owner_or_private_helper(repo, f: FuncInfo, owners: Set[str], family: Set[str], depth=2) -> bool:
+    """f is a tabled owner, or a private helper method of the Message family every call site of which
+    (by name, whole tree) lies in an owner / in such a helper."""
+    if f.qual in owners:
+        return True
+    if depth <= 0 or f.cls is None or f.cls.qual not in family or not f.name.startswith("_") or f.name.startswith("__"):
+        return False
+    sites = call_index(repo).get(f.name, [])
+    return bool(sites) and all(_owner_or_private_helper(repo, g, owners, family, depth - 1) for g, _ in sites)
+
+
 def r3(ctx):
     repo = ctx.repo
     R = "C07.R3"
@@ -522,22 +725,29 @@ def r3(ctx):
             counts[f"{attr}={kind}"] = counts.get(f"{attr}={kind}", 0) + 1
             where = ctx.w(f, st.node)
             shown = kind if kind != "other" else (norm(st.value) if st.value is not None else st.kind)
-            ctx.ob(R, f"{f.qual}: {st.path} = {shown} by an owner", f.qual in table[kind], where,
-                   f"Message.{attr} written outside its owner table {sorted(table[kind])}")
+            ctx.ob(R, f"{f.qual}: {st.path} = {shown} by an owner", _owner_or_private_helper(repo, f, table[kind], msg_family),
+                   where, f"Message.{attr} written outside its owner table {sorted(table[kind])}")
             if attr == "finalized" and kind == "True":
                 ctx.ob(R, f"{f.qual}: {st.path} = True dominated by `not {base}.finalized`",
                        _path_fact(st.node, f"{base}.finalized", False, f.node), where,
                        "a finalized (sent or dropped) message could be sent or dropped again")
-            if f.qual == "Message.take" and base == "self":
-                ok = attr == "queued" and kind == "True" and _path_fact(st.node, "self.finalized", False, f.node)
-                ctx.ob(R, f"Message.take: {st.path} = {shown} only marks the unfinalized original as queued", ok, where,
-                       "take() must touch the original only by `queued = True` under `not self.finalized`")
     ctx.floor(R, "finalized=True stores", counts.get("finalized=True", 0), 3)
     ctx.floor(R, "queued=True stores", counts.get("queued=True", 0), 1)
     ctx.floor(R, "dropped=True stores", counts.get("dropped=True", 0), 1)
 
     # take(): the copy is reset
-    take = repo.fn("Message.take")
+    from .common import inlined_funcinfo
+    take = inlined_funcinfo(repo, repo.fn("Message.take"))     # private helpers (also those run on the copy) spliced in
+    for st in stores(take.node, into_defs=False):
+        if "." not in st.path or st.kind not in ("assign", "augassign", "del"):
+            continue
+        base, attr = st.path.rsplit(".", 1)
+        if base == "self" and attr in FLAG_OWNERS:
+            shown = "True" if _is_true(st.value) else "False" if _is_false(st.value) else \
+                (norm(st.value) if st.value is not None else st.kind)
+            ok = attr == "queued" and _is_true(st.value) and _path_fact(st.node, "self.finalized", False, take.node)
+            ctx.ob(R, f"Message.take: {st.path} = {shown} only marks the unfinalized original as queued", ok,
+                   ctx.w(take, st.node), "take() must touch the original only by `queued = True` under `not self.finalized`")
     copy_resets = {}
     for st in stores(take.node, into_defs=False):
         if st.kind == "assign" and "." in st.path and not st.path.startswith("self."):
